@@ -13,6 +13,7 @@ C15 — analyzers and file readers as unit-aware front ends: model of the AXIS p
 * `timeAt`        the k-th entry of `.time` (`UniformTime(length, t0, sampling_interval)`).
 * `concatData`/`concatenate`   `concatenate_time_series`.
 * `selectVoxels`  `data[coords[0], coords[1], coords[2]]` on a C-ordered 4-d volume.
+* `Reader.*`      (`Model/C15Reader.lean`) histories of reads and in-place writes on a heap of buffers.
 -/
 import Nitime.Model.F64
 import Nitime.Model.Units
@@ -21,6 +22,7 @@ import Nitime.Generated.Units
 import Nitime.Model.C15Types
 import Nitime.Generated.SeriesCalls
 import Nitime.Generated.FsBindings
+import Nitime.Model.C15Reader
 
 namespace Nitime.C15
 open Nitime
@@ -314,6 +316,10 @@ def handle (args : List String) : String :=
       let rows := selectVoxels v c0 c1 c2
       s!"ok {rows.length} {t} {joinList rows.flatten}"
     | _, _, _, _, _, _, _ => "bad-op"
+  -- readseq <Y> <Z> <V> <Ts> <tokens> <ops>: a history of reads / in-place writes on the same files (Model/C15Reader.lean)
+  | ["readseq", y, z, v, ts, toks, ops] => Reader.handleReadseq y z v ts toks ops
+  -- readeropts <normalize|-> <filter method|->: accepted, or refused with ValueError
+  | ["readeropts", nrm, meth] => if Reader.optionsOk nrm meth then "ok" else "err ValueError"
   | _ => "bad-op"
 
 end Nitime.C15
